@@ -44,9 +44,11 @@ Qed.
 Theorem random_floats_productive lo hi : G 4 4 (random_floats lo hi).
 Proof.
   unfold random_floats.
-  set (body := GReal lo hi (fun q => GYield (vfloat q) GStop)).
-  assert (Hb : G 2 2 body). { unfold body. apply (G_real 1 2). intros q. constructor; [lia|]. constructor. lia. }
-  assert (Hm : MustYield body). { unfold body. constructor. intros q. constructor. }
+  set (body := if Qle_bool hi lo then GYield (vfloat lo) GStop else GReal lo hi (fun q => GYield (vfloat q) GStop)).
+  assert (Hb : G 2 2 body).
+  { unfold body. destruct (Qle_bool hi lo); [constructor; [lia|]; constructor; lia|].
+    apply (G_real 1 2). intros q. constructor; [lia|]. constructor. lia. }
+  assert (Hm : MustYield body). { unfold body. destruct (Qle_bool hi lo); [constructor|]. constructor. intros q. constructor. }
   constructor. constructor; [lia|]. constructor; [lia|]. eapply G_up; [eapply (G_loop2 2 2 2 2 4); eauto|lia|lia].
 Qed.
 
